@@ -403,9 +403,82 @@ def _dump_bean(ctx, mon, bean, name):
         return ("raise", ex)
 
 
+def poison_histories(ctx, mon, rng):
+    """
+    Histories on shared objects: a dump (or load) that fails must have no lasting effect - after the caller
+    repairs the value in place, the SAME containers must dump and round-trip like fresh ones.
+    """
+    class Poison(object):
+        def _serialize(self):
+            raise RuntimeError("poisoned")
+
+    for i in range(ctx.pick(150, 3000)):
+        # a nesting with one poisoned member at a random depth
+        depth = rng.randint(1, 5)
+        path = []
+        root = cur = rng.choice([[], {}])
+        for d in range(depth):
+            nxt = rng.choice([[], {}])
+            if isinstance(cur, list):
+                cur.extend([gen.rand_prim(rng), nxt, (1, 2)])
+            else:
+                cur["k%d" % d] = nxt
+                cur["t"] = (1, {2})
+            path.append(cur)
+            cur = nxt
+        kind = rng.choice(["serialize-raises", "cycle", "too-deep"])
+        if kind == "serialize-raises":
+            holder = cur
+            if isinstance(holder, list):
+                holder.append(Poison())
+            else:
+                holder["poison"] = Poison()
+        elif kind == "cycle":
+            holder = cur
+            if isinstance(holder, list):
+                holder.append(root)
+            else:
+                holder["cycle"] = root
+        else:
+            holder = cur
+            deep = inner = []
+            tail = None
+            for lvl in range(3000):
+                n2 = []
+                inner.append(n2)
+                inner = n2
+                if lvl == 2990:
+                    tail = n2      # a shallow inner part of the too-deep nesting
+            if isinstance(holder, list):
+                holder.append(deep)
+            else:
+                holder["deep"] = deep
+        try:
+            mon.jc.dump(root)
+            failed = False
+        except Exception:
+            failed = True
+        except RecursionError:
+            failed = True
+        ctx.count("history:first-dump-" + ("failed" if failed else "succeeded"))
+        # repair in place
+        if isinstance(holder, list):
+            holder.pop()
+        else:
+            for k in ("poison", "cycle", "deep"):
+                holder.pop(k, None)
+        ctx.count("judged:dump-after-failure")
+        roundtrip(ctx, mon, root, "after-failed-dump:" + kind)
+        for sub in path[1:]:
+            roundtrip(ctx, mon, sub, "after-failed-dump:" + kind)
+        if kind == "too-deep":
+            roundtrip(ctx, mon, tail, "after-failed-dump:inner-level")
+
+
 def run(ctx):
     mon = Monitors(ctx)
     rng = ctx.rng
+    poison_histories(ctx, mon, rng)
     # (a) exhaustive small shapes, partitioned over shards (complete in both tiers)
     for idx, x in enumerate(small_shapes()):
         if not ctx.mine(idx):
@@ -441,7 +514,8 @@ def finalize(m, tier):
     out = []
     for k, lo in (("monitor:dump-purity", 1000), ("monitor:load-purity", 1000), ("judged:roundtrip", 1000),
                   ("judged:json-serialisable", 500), ("judged:load-failure-purity", 50),
-                  ("judged:load-success-purity", 10), ("judged:dump-failure-purity", 2)):
+                  ("judged:load-success-purity", 10), ("judged:dump-failure-purity", 2),
+                  ("judged:dump-after-failure", 100), ("history:first-dump-failed", 100)):
         if c.get(k, 0) < lo:
             out.append("monitor counter %s too low (%d < %d)" % (k, c.get(k, 0), lo))
     return out
